@@ -106,8 +106,9 @@ type c19RacePair struct {
 var c19FrameRe = regexp.MustCompile(`^  (\S+)\(\)$`)
 
 // c19ParseRaces canonicalises race reports. A report is
-//   WARNING: DATA RACE / <Kind> at 0x.. by goroutine N: / frames (function line, then "      file:line +0x..") /
-//   blank / Previous <kind> at ... / frames / blank / Goroutine ... created at: ...
+//
+//	WARNING: DATA RACE / <Kind> at 0x.. by goroutine N: / frames (function line, then "      file:line +0x..") /
+//	blank / Previous <kind> at ... / frames / blank / Goroutine ... created at: ...
 func c19ParseRaces(text, repo string) map[string]*c19RacePair {
 	out := map[string]*c19RacePair{}
 	blocks := strings.Split(text, "WARNING: DATA RACE")
